@@ -148,12 +148,13 @@ def handleExec (toks : List String) : String :=
                     (if t.helperCalls > 0 then ["helper"] else [])
         let claim := match r with | .done _ _ => (if t.inClaim then "in" else "out") | _ => "out"
         -- what the generated code is modelled to compute (EngineSem), in the harness' engine format
-        let eng (comp : EngineSem.Compile) (res : Unit → Interp.Result) : String :=
+        let forced (e : String) : Bool := ((look (kvOf toks) "force").getD "").splitOn "," |>.contains e
+        let eng (name : String) (comp : EngineSem.Compile) (res : Unit → Interp.Result) : String :=
           match comp with
           | .err => "compile-err"
           | .panic => "compile-panic"
-          | .ok => match r with
-            | .done _ _ => (match res () with
+          | .ok => match (match r with | .done _ _ => true | _ => forced name) with
+            | true => (match res () with
               | .done r0 s =>
                 let d := detail c s
                 -- " mem=A mbuff=B extra=C log=N:D"  ->  "ok:r0=..:mem=A:mbuff=B:LOG=N:D"
@@ -162,11 +163,11 @@ def handleExec (toks : List String) : String :=
                 s!"ok:r0={bvHex r0}:mem={get "mem"}:mbuff={get "mbuff"}:LOG={get "log"}"
               | .err _ _ => "trap"
               | .panic => "panic" | .fault => "fault" | .timeout _ => "timeout")
-            | _ => "compiled"
+            | false => "compiled"
         let m0 := Interp.init (mkMem c)
         render r ++ " | claim=" ++ claim ++ (if tags.isEmpty then "" else " | tags=" ++ ",".intercalate tags) ++
-          " | jitsem=" ++ eng (EngineSem.jitCompile env) (fun _ => EngineSem.jitRun env m0 c.budget) ++
-          " | clifsem=" ++ eng (EngineSem.clifCompile env) (fun _ => EngineSem.clifRun env m0 c.budget)
+          " | jitsem=" ++ eng "jit" (EngineSem.jitCompile env) (fun _ => EngineSem.jitRun env m0 c.budget) ++
+          " | clifsem=" ++ eng "clif" (EngineSem.clifCompile env) (fun _ => EngineSem.clifRun env m0 c.budget)
       else
       let m := render (Interp.run env (Interp.init (mkMem c)) c.budget)
       if (look (kvOf toks) "spec") == some "isa" then
